@@ -37,6 +37,17 @@ func (g *Group) isNullItems(f *File) bool {
 	return true
 }
 
+// countItems returns the number of items that render something (neither nil nor null).
+func (g *Group) countItems(f *File) int {
+	n := 0
+	for _, c := range g.items {
+		if c != nil && !c.isNull(f) {
+			n++
+		}
+	}
+	return n
+}
+
 func (g *Group) render(f *File, w io.Writer, s *Statement) error {
 	if g.name == "types" && g.isNullItems(f) {
 		// Special case for types - if all items are null, don't render the open/close tokens.
@@ -100,7 +111,8 @@ func (g *Group) renderItems(f *File, w io.Writer) (isNull bool, err error) {
 			continue
 		}
 		if g.name == "values" {
-			if _, ok := code.(Dict); ok && len(g.items) > 1 {
+			// nil and null items produce nothing: they are not items beside the Dict
+			if _, ok := code.(Dict); ok && g.countItems(f) > 1 {
 				return false, fmt.Errorf("Error in Values: if Dict is used, must be one item only")
 			}
 		}
